@@ -426,39 +426,59 @@ fn to_source_span(src: &NamedSource<String>, location: &Location) -> Option<Sour
     {
         (off as usize, len as usize)
     } else {
-        // The parser provides character-based offsets/lengths, while miette expects
-        // byte offsets into the UTF-8 source. Convert here using the available source.
-        fn char_range_to_byte_range(
-            s: &str,
-            char_offset: usize,
-            char_len: usize,
-        ) -> Option<(usize, usize)> {
-            // Start byte index for the given character offset
-            let start_byte = if char_offset == 0 {
-                0
-            } else {
-                s.char_indices().nth(char_offset).map(|(i, _)| i)?
-            };
-
-            // End in characters (exclusive)
-            let end_char = char_offset.saturating_add(char_len);
-
-            // If end past the last char, clamp to the end of the string in bytes
-            let end_byte = match s.char_indices().nth(end_char) {
-                Some((i, _)) => i,
-                None => s.len(),
-            };
-
-            Some((start_byte, end_byte.saturating_sub(start_byte)))
+        // Without byte offsets (reader input) only character-based positions are known, while
+        // miette expects byte offsets into the UTF-8 source. The character *offset* is not
+        // reliable there (the parser advances it by bytes over text it skips, such as comments
+        // with non-ASCII characters), so locate the start by line and column and only take the
+        // length from the span.
+        fn line_col_to_byte_offset(s: &str, line: usize, column: usize) -> Option<usize> {
+            if line == 0 || column == 0 {
+                return None;
+            }
+            // Start of the requested line: breaks are LF, CRLF or a lone CR.
+            let bytes = s.as_bytes();
+            let mut line_start = 0usize;
+            let mut current = 1usize;
+            let mut i = 0usize;
+            while current < line {
+                match bytes.get(i)? {
+                    b'\n' => {
+                        current += 1;
+                        line_start = i + 1;
+                    }
+                    b'\r' => {
+                        if bytes.get(i + 1) == Some(&b'\n') {
+                            i += 1;
+                        }
+                        current += 1;
+                        line_start = i + 1;
+                    }
+                    _ => {}
+                }
+                i += 1;
+            }
+            let rest = s.get(line_start..)?;
+            let line_text = rest.find(['\n', '\r']).map_or(rest, |end| &rest[..end]);
+            // Column is 1-based and counts characters; past the end means end of line.
+            let in_line = line_text
+                .char_indices()
+                .nth(column - 1)
+                .map_or(line_text.len(), |(i, _)| i);
+            Some(line_start + in_line)
         }
 
-        let char_off = location.span().offset() as usize;
         let mut char_len = location.span().len() as usize;
         if char_len == 0 {
             char_len = 1;
         }
-
-        char_range_to_byte_range(src.inner(), char_off, char_len)?
+        let source = src.inner();
+        let start_byte =
+            line_col_to_byte_offset(source, location.line() as usize, location.column() as usize)?;
+        let end_byte = source[start_byte..]
+            .char_indices()
+            .nth(char_len)
+            .map_or(source.len(), |(i, _)| start_byte + i);
+        (start_byte, end_byte.saturating_sub(start_byte))
     };
 
     if byte_len == 0 {
